@@ -5,7 +5,8 @@ import CalVerif.Lemmas.Cfb
 
     * reader model: `Model/Cfb.lean` (`Cfb.new`, `Cfb.getStream`, `Cfb.readStream`, …), mirroring
       `src/cfb.rs` after the fixes D25, D29 and their follow-ups (total `to_u32`, names decoded without
-      BOM sniffing, chains and allocation table bounded by the file length);
+      BOM sniffing, whole DIFAT sectors, chains / DIFAT walk / allocation table bounded by the bytes actually
+      read; the `len` argument is a capacity hint only);
     * encoder: `Spec/CfbLayout.lean`: `layoutCfb streams L` lays the streams out as the layout `L`
       (data) says; `Valid streams L` is the decidable consistency condition. It constrains neither
       the sector size (512/4096), nor the allocation (`owner` is an arbitrary array: any injective
@@ -22,16 +23,17 @@ namespace Cfb
 /-- `chain_follow`: in ANY allocation table in which `ids` is recorded as a chain
     (`fats[ids[i]] = ids[i+1]`, the last one maps to ENDOFCHAIN), the bounded loop of `get_chain`
     started at `ids[0]` returns exactly the sectors `ids[0], …, ids[n-1]` in this order (their
-    contents concatenated), whatever the state of the lazy sector cache, provided the chain's bytes fit
-    the file length the reader was given (`hfit`; the fixed loop refuses to accumulate more). No
-    injectivity or ordering assumption on `ids`: permuted and fragmented chains are covered. -/
+    contents concatenated), whatever the state of the lazy sector cache, provided the sectors are
+    distinct and the file holds them entirely (then the accumulation guard of the fixed loop — never
+    more bytes than have been read — cannot fire: pigeonhole). No ordering assumption on `ids`:
+    permuted and fragmented chains are covered. -/
 theorem chain_follow (fats : List Nat) (body : Bytes) (ids : List Nat) (rem : Nat) (s : Sectors) (rd : Bytes)
-    (hcache : s.data ++ rd = body) (hrem : ids.length ≤ rem)
+    (hcache : s.data ++ rd = body) (hrem : ids.length ≤ rem) (hss : 0 < s.size)
     (hchain : ∀ i (h : i < ids.length), ids[i] ≠ ENDOFCHAIN ∧ fats[ids[i]]? = some (ids[i+1]?.getD ENDOFCHAIN))
-    (hfit : ((ids.map (sec body s.size)).flatten).length ≤ s.limit) :
+    (hdistinct : ids.Nodup) (hfull : ∀ x ∈ ids, (x + 1) * s.size ≤ body.length) :
     ∃ s' rd', Sectors.chainLoop fats rem (ids[0]?.getD ENDOFCHAIN) s rd 0 =
         .ok ((ids.map (sec body s.size)).flatten, s', rd') ∧ s'.data ++ rd' = body ∧ s'.size = s.size :=
-  chainLoop_follow fats body ids rem s rd 0 hcache hrem hchain (by omega)
+  chainLoop_follow fats body ids rem s rd hcache hrem hss hchain hdistinct hfull
 
 /-- the lazily filled cache is transparent: `Sectors::get` returns the sector of the underlying
     sector area (clipped at EOF), whatever has been read before -/
@@ -60,20 +62,18 @@ theorem truncate_to_size (ss : Nat) (fill : UInt8) (hss : 0 < ss) (D : Bytes) :
 theorem chain_fits_table (sp : Space) (c n : Nat) (h : chainOK sp c n = true) : n ≤ sp.owner.size :=
   chain_size_le sp c n h
 
-/-- chain read = data, for any chain of any space (main sectors or mini sectors), any `owner`;
-    `hfit`: the space fits the file length the reader was given -/
+/-- chain read = data, for any chain of any space (main sectors or mini sectors), any `owner` -/
 theorem chain_roundtrip (sp : Space) (ss : Nat) (hss : 0 < ss) (fill : UInt8) (P : Array (Array Bytes))
     (fatSec difSec : Nat → Bytes)
     (hP : UniformP ss P) (hf : ∀ j, (fatSec j).length = ss) (hd : ∀ j, (difSec j).length = ss)
     (c : Nat) (D : Bytes) (hPc : P[c]? = some (pieces ss fill D))
     (hok : chainOK sp c (nsect ss D.length) = true)
     (len : Nat) (hlen : sp.owner.size ≤ len) (hres : sp.owner.size ≤ RESERVED)
-    (s : Sectors) (rd : Bytes) (hsz : s.size = ss) (hinv : s.data ++ rd = sp.body ss fill P fatSec difSec)
-    (hfit : ss * sp.owner.size ≤ s.limit) :
+    (s : Sectors) (rd : Bytes) (hsz : s.size = ss) (hinv : s.data ++ rd = sp.body ss fill P fatSec difSec) :
     ∃ s' rd', s.getChain (chainStart sp c) (sp.fats len) rd D.length = .ok (D, s', rd') ∧
       s'.data ++ rd' = sp.body ss fill P fatSec difSec ∧ s'.size = ss := by
   obtain ⟨s', rd', he, hi, hz⟩ := Space.getChain_gen sp ss hss fill P fatSec difSec hP hf hd c D hPc hok len hlen
-    hres s rd [] hsz (by rw [List.append_nil]; exact hinv) hfit D.length
+    hres s rd [] hsz (by rw [List.append_nil]; exact hinv) D.length
   rw [stream_read_result ss fill hss] at he
   rw [List.append_nil] at hi
   exact ⟨s', rd', he, hi, hz⟩
@@ -149,7 +149,7 @@ theorem containers_equal (streams : List Stream) (L₁ L₂ : Layout) (h₁ : Va
     readStream (layoutCfb streams L₁) st.name = readStream (layoutCfb streams L₂) st.name := by
   rw [cfb_roundtrip streams L₁ h₁ st hst, cfb_roundtrip streams L₂ h₂ st hst]
 
-/-! ## robustness on ARBITRARY bytes (C06 flavour): total, terminating, bounded by the file length -/
+/-! ## robustness on ARBITRARY bytes (C06 flavour): total, terminating, bounded by the bytes read -/
 
 theorem chainLoop_total (fats : List Nat) (rem id : Nat) (s : Sectors) (rd : Bytes) (acc : Nat) :
     Sectors.chainLoop fats rem id s rd acc ≠ .outOfFuel :=
@@ -161,16 +161,19 @@ theorem getChain_total (s : Sectors) (start : Nat) (fats : List Nat) (rd : Bytes
     s.getChain start fats rd len ≠ .outOfFuel ∧ ∀ m, s.getChain start fats rd len ≠ .panic m :=
   ⟨(getChain_clean s start fats rd len).2, (getChain_clean s start fats rd len).1⟩
 
-/-- `X_alloc` for `get_chain`: on ANY allocation table (cyclic, corrupt) the bytes it accumulates and returns
-    never exceed the file length the reader was given -/
+/-- `X_alloc` for `get_chain`: on ANY allocation table (cyclic, corrupt) and for ANY `len` argument the bytes
+    it returns never exceed what has been read of the file (the sector cache afterwards), and cache plus unread
+    bytes are conserved — so they never exceed the file -/
 theorem getChain_alloc_bound (s : Sectors) (start : Nat) (fats : List Nat) (rd : Bytes) (len : Nat)
     (x : Bytes) (s' : Sectors) (rd' : Bytes) (h : s.getChain start fats rd len = .ok (x, s', rd')) :
-    x.length ≤ s.limit := getChain_alloc s start fats rd len x s' rd' h
+    x.length ≤ s'.data.length ∧ s'.data.length + rd'.length = s.data.length + rd.length :=
+  getChain_alloc s start fats rd len x s' rd' h
 
-/-- `Cfb::new` on ARBITRARY bytes terminates (DIFAT walk bounded by the file length, chains by the table) -/
+/-- `Cfb::new` on ARBITRARY bytes terminates, whatever `len` hint it is given (the DIFAT walk is bounded by
+    the bytes read, the chains by the table and the bytes read) -/
 theorem new_terminates (file : Bytes) (len : Nat) : Cfb.new file len ≠ .outOfFuel := (new_clean file len).2.1
 
-/-- `Cfb::new` is total: on EVERY byte string it returns `Ok` or `Err`, it never panics -/
+/-- `Cfb::new` is total: on EVERY byte string and for EVERY `len` hint it returns `Ok` or `Err`, it never panics -/
 theorem new_no_panic (file : Bytes) (len : Nat) (m : String) : Cfb.new file len ≠ .panic m :=
   (new_clean file len).1 m
 
@@ -178,35 +181,45 @@ theorem new_no_panic (file : Bytes) (len : Nat) (m : String) : Cfb.new file len 
 theorem new_no_panic_partial (file : Bytes) (len : Nat) (m : String) (h : Cfb.new file len = .panic m) :
     m = "to_u32: assert_eq!(s.len() % 4, 0)" := absurd h (new_no_panic file len m)
 
-/-- `X_alloc` for `Cfb::new` on ARBITRARY bytes: the allocation table has at most `len / 4` entries, the mini
-    stream at most `len` bytes, and both sector caches carry the limit `len` for later `get_stream` calls -/
+/-- the `len` argument of `Cfb::new` is a capacity hint only: the result does not depend on it -/
+theorem new_len_independent (file : Bytes) (len₁ len₂ : Nat) : Cfb.new file len₁ = Cfb.new file len₂ := rfl
+
+/-- `X_alloc` for `Cfb::new` on ARBITRARY bytes: the allocation table (4 bytes per entry) and the mini stream are
+    no larger than what has been read of the file, which together with the unread rest is at most the file -/
 theorem new_alloc_bound (file : Bytes) (len : Nat) (c : CfbSt) (rd : Bytes) (h : Cfb.new file len = .ok (c, rd)) :
-    c.fats.length ≤ len / 4 ∧ c.mini.data.length ≤ len ∧ c.sectors.limit = len ∧ c.mini.limit = len :=
+    c.fats.length * 4 ≤ c.sectors.data.length ∧ c.mini.data.length ≤ c.sectors.data.length ∧
+    c.sectors.data.length + rd.length ≤ file.length :=
   (new_clean file len).2.2 c rd h
 
 /-- `get_stream` on ARBITRARY reader state never panics and always terminates -/
 theorem getStream_no_panic (c : CfbSt) (name : List Char) (rd : Bytes) :
     (∀ m, getStream c name rd ≠ .panic m) ∧ getStream c name rd ≠ .outOfFuel := getStream_clean c name rd
 
-/-- `X_alloc` for `get_stream`: a stream is never longer than the file length given to `Cfb::new` -/
-theorem getStream_alloc_bound (c : CfbSt) (name : List Char) (rd : Bytes) (len : Nat)
-    (h1 : c.sectors.limit = len) (h2 : c.mini.limit = len) (x : Bytes) (c' : CfbSt) (rd' : Bytes)
+/-- `X_alloc` for `get_stream`: a stream is never longer than the bytes the state holds (both caches and the
+    unread rest), and that quantity is conserved; after `Cfb::new` it is at most twice the file length -/
+theorem getStream_alloc_bound (c : CfbSt) (name : List Char) (rd : Bytes) (x : Bytes) (c' : CfbSt) (rd' : Bytes)
     (h : getStream c name rd = .ok (x, c', rd')) :
-    x.length ≤ len ∧ c'.sectors.limit = len ∧ c'.mini.limit = len :=
-  getStream_alloc c name rd len h1 h2 x c' rd' h
+    x.length ≤ c.bytes rd ∧ c'.bytes rd' = c.bytes rd :=
+  getStream_alloc c name rd x c' rd' h
 
-/-- on an acyclic (valid) chain that fits the file the bounds are never the reason for an error: a fuel of
+theorem bytes_after_new (file : Bytes) (len : Nat) (c : CfbSt) (rd : Bytes) (h : Cfb.new file len = .ok (c, rd)) :
+    c.bytes rd ≤ 2 * file.length := by
+  obtain ⟨_, h2, h3⟩ := new_alloc_bound file len c rd h
+  simp only [CfbSt.bytes]; omega
+
+/-- on an acyclic (valid) chain of distinct sectors the bounds are never the reason for an error: a fuel of
     the number of sectors of the chain suffices (statement of `chain_follow` with `rem = ids.length`) -/
 theorem chain_fuel_suffices (fats : List Nat) (body : Bytes) (ids : List Nat) (s : Sectors) (rd : Bytes)
-    (hcache : s.data ++ rd = body)
+    (hcache : s.data ++ rd = body) (hss : 0 < s.size)
     (hchain : ∀ i (h : i < ids.length), ids[i] ≠ ENDOFCHAIN ∧ fats[ids[i]]? = some (ids[i+1]?.getD ENDOFCHAIN))
-    (hfit : ((ids.map (sec body s.size)).flatten).length ≤ s.limit) :
+    (hdistinct : ids.Nodup) (hfull : ∀ x ∈ ids, (x + 1) * s.size ≤ body.length) :
     ∃ r, Sectors.chainLoop fats ids.length (ids[0]?.getD ENDOFCHAIN) s rd 0 = .ok r := by
-  obtain ⟨s', rd', he, _, _⟩ := chainLoop_follow fats body ids ids.length s rd 0 hcache (Nat.le_refl _) hchain (by omega)
+  obtain ⟨s', rd', he, _, _⟩ := chainLoop_follow fats body ids ids.length s rd hcache (Nat.le_refl _) hss hchain
+    hdistinct hfull
   exact ⟨_, he⟩
 
 /-- a self-referencing chain is an error, not a hang (the D29 input) -/
-example : Sectors.getChain ⟨[], 512, 3⟩ 0 [0] [1, 2, 3] 0 = .err "io" := by decide
+example : Sectors.getChain ⟨[], 512⟩ 0 [0] [1, 2, 3] 0 = .err "io" := by decide
 
 /-! ## a concrete instance -/
 
